@@ -4,7 +4,11 @@ package c01
 import (
 	"bytes"
 	"context"
+	"crypto/ecdsa"
+	"crypto/ed25519"
+	"crypto/elliptic"
 	"crypto/rand"
+	"encoding/base64"
 	"encoding/binary"
 	"fmt"
 	"os"
@@ -41,6 +45,42 @@ type Case struct {
 var names = []string{"alice", "bob", "carol", "alice.pub"}
 var userKeys = []string{"p256b", "ed25519b", "rsa2048b", "p384a"}
 
+// registered "keys" of unusual types: security-key types, a certificate line, DSA. The forwarded
+// agent can never prove possession of any of them, so they must never authenticate.
+var oddKeys = []string{"sk-ed25519", "sk-ecdsa", "cert:p256b", "cert:ed25519b", "dsa"}
+
+func sshBytes(parts ...[]byte) []byte {
+	var out []byte
+	for _, p := range parts {
+		out = append(out, sshStr(p)...)
+	}
+	return out
+}
+
+const dsaLine = "ssh-dss AAAAB3NzaC1kc3MAAACBAP1/U4EddRIpUt9KnC7s5Of2EbdSPO9EAMMeP4C2USZpRV1AIlH7WT2NWPq/xfW6MPbLm1Vs14E7gB00b/JmYLdrmVClpJ+f6AR7ECLCT7up1/63xhv4O1fnxqimFQ8E+4P208UewwI1VBNaFpEy9nXzrith1yrv8iIDGZ3RSAHHAAAAFQCXYFCPFSMLzLKSuYKi64QL8Fgc9QAAAIEA9+GghdabPd7LvKtcNrhXuXmUr7v6OuqC+VdMCz0HgmdRWVeOutRZT+ZxBxCBgLRJFnEj6EwoFhO3zwkyjMim4TwWeotUfI0o4KOuHiuzpnWRbqN/C/ohNWLx+2J6ASQ7zKTxvqhRkImog9/hWuWfBpKLZl6Ae1UlZAFMO/7PSSoAAACAExB+4ArWPM5y4Nvb/4LxcyO24bD1ahv0yVRyGTRxKxPXpGQfRW/nJ+3e4mNvs3xvmNWXl7rEBY+zKqRtCJUdvRmVbHy9FWnPRT0HEMmVsFW9YWCw4yT5rhmWvHSYKCwkC3EVVSf0YCBvn+SOIwOd6wB4/l6Uiz+P96ZrJf1QcYM= dsa@registered"
+
+func registeredContent(spec, comment string) []byte {
+	switch {
+	case spec == "unparsable":
+		return []byte("this is not a public key\n")
+	case spec == "sk-ed25519":
+		pub := vh.SSHPub("ed25519c").(ssh.CryptoPublicKey).CryptoPublicKey().(ed25519.PublicKey)
+		blob := sshBytes([]byte("sk-ssh-ed25519@openssh.com"), []byte(pub), []byte("ssh:"))
+		return []byte("sk-ssh-ed25519@openssh.com " + base64.StdEncoding.EncodeToString(blob) + " " + comment + "\n")
+	case spec == "sk-ecdsa":
+		pub := vh.SSHPub("p256c").(ssh.CryptoPublicKey).CryptoPublicKey().(*ecdsa.PublicKey)
+		point := elliptic.Marshal(elliptic.P256(), pub.X, pub.Y)
+		blob := sshBytes([]byte("sk-ecdsa-sha2-nistp256@openssh.com"), []byte("nistp256"), point, []byte("ssh:"))
+		return []byte("sk-ecdsa-sha2-nistp256@openssh.com " + base64.StdEncoding.EncodeToString(blob) + " " + comment + "\n")
+	case strings.HasPrefix(spec, "cert:"):
+		c := vh.MakeSSHCert(vh.SSHCertSpec{Key: strings.TrimPrefix(spec, "cert:"), KeyID: "registered certificate", ValidBefore: ssh.CertTimeInfinity})
+		return ssh.MarshalAuthorizedKey(c)
+	case spec == "dsa":
+		return []byte(dsaLine + "\n")
+	}
+	return vh.AuthorizedLine(spec, comment)
+}
+
 func gen(t *rapid.T) Case {
 	c := Case{Dir: map[string]string{}}
 	files := []string{"alice.pub", "alice", "bob.pub", "bob", "carol", "carol.pub", "alice.pub.pub"}
@@ -50,6 +90,8 @@ func gen(t *rapid.T) Case {
 			// absent
 		case 2:
 			c.Dir[f] = "unparsable"
+		case 3:
+			c.Dir[f] = rapid.SampledFrom(append(append([]string{}, oddKeys...), userKeys...)).Draw(t, "odd:"+f)
 		default:
 			c.Dir[f] = rapid.SampledFrom(userKeys).Draw(t, "key:"+f)
 		}
@@ -139,12 +181,10 @@ func exec(c Case) (vh.Outcome, error) {
 		return out, nil
 	}
 	defer os.RemoveAll(dir)
+	contents := map[string][]byte{}
 	for f, k := range c.Dir {
-		content := []byte("this is not a public key\n")
-		if k != "unparsable" {
-			content = vh.AuthorizedLine(k, f+"@registered")
-		}
-		os.WriteFile(filepath.Join(dir, f), content, 0o644)
+		contents[f] = registeredContent(k, f+"@registered")
+		os.WriteFile(filepath.Join(dir, f), contents[f], 0o644)
 	}
 	conf, err := vh.WriteGensignConfig(dir, vh.HandlerConf{PubKeyDir: dir, ValiditySec: 3600, KeyIdentifiers: map[string]string{"default": "ssh-user-key"}})
 	if err != nil {
@@ -260,7 +300,8 @@ func exec(c Case) (vh.Outcome, error) {
 		regKey, hasReg := c.Dir[regFile]
 		var K ssh.PublicKey
 		if hasReg && regKey != "unparsable" {
-			K = vh.SSHPub(regKey)
+			// the registered key is whatever the first key line of the file says (independent parse)
+			K, _, _, _, _ = ssh.ParseAuthorizedKey(contents[regFile])
 		}
 		realAuth := false
 		if r.Policy == "NONS" && !r.HardKey && K != nil {
@@ -386,7 +427,7 @@ func orDefault(name string) string {
 	return name
 }
 
-const rule = "histories of 1..4 runs of gensign.Run sharing one registered-key directory and one scripted forwarded agent. Per run: login name (incl. names of other users and 'alice.pub'), namespace policy NONS / NSOK, hardware-key flag, client-declared user / host different from the login name, parameters built directly or through NewReqParam, agent behaviour {honest, lacks the key, signs with another key, signs other data, replays a signature captured earlier in the history, garbage, empty signature, failure, closes the connection}, handler list of 1..4 entries with at most one real regular handler among accepting harness handlers and harness handlers rejecting with every kind of error (authentication, disabled, invalid parameters, unknown, panic-typed, untyped). Directory: '<n>.pub' and bare '<n>' files holding any user's key, both with different keys, unparsable, absent. Oracle: the harness sees every sign request and reply and decides itself (K.Verify over this run's challenge under the registered key) whether the real handler may authenticate; CA call or add-identity => the selected handler is the first in list order that authenticates, earlier ones asked once, later ones never; none => AllAuthFailed, no Generate, no CA call, no add; a handler authenticates => the run succeeds with exactly one request from that handler; challenges are 64 bytes, only under the registered key, pairwise distinct over the history. Non-trivial: an adversarial agent while the key file exists, or a reject before an accept in a list of >= 2."
+const rule = "histories of 1..4 runs of gensign.Run sharing one registered-key directory and one scripted forwarded agent. Per run: login name (incl. names of other users and 'alice.pub'), namespace policy NONS / NSOK, hardware-key flag, client-declared user / host different from the login name, parameters built directly or through NewReqParam, agent behaviour {honest, lacks the key, signs with another key, signs other data, replays a signature captured earlier in the history, garbage, empty signature, failure, closes the connection}, handler list of 1..4 entries with at most one real regular handler among accepting harness handlers and harness handlers rejecting with every kind of error (authentication, disabled, invalid parameters, unknown, panic-typed, untyped). Directory: '<n>.pub' and bare '<n>' files holding any user's key (RSA, ECDSA, Ed25519, and the types nobody can answer for through the forwarded agent: security-key types, a certificate line, DSA), both with different keys, unparsable, absent. Oracle: the harness sees every sign request and reply and decides itself (K.Verify over this run's challenge under the registered key) whether the real handler may authenticate; CA call or add-identity => the selected handler is the first in list order that authenticates, earlier ones asked once, later ones never; none => AllAuthFailed, no Generate, no CA call, no add; a handler authenticates => the run succeeds with exactly one request from that handler; challenges are 64 bytes, only under the registered key, pairwise distinct over the history. Non-trivial: an adversarial agent while the key file exists, or a reject before an accept in a list of >= 2."
 
 func TestC01Auth(t *testing.T) {
 	vh.Run(t, vh.Spec[Case]{Property: "C01", Name: "TestC01Auth", Rule: rule, Gen: gen, Exec: exec})
